@@ -375,16 +375,11 @@ func dBandsArg(dims [][2]int, positions [][][2]int) string {
 
 func suiteHeader(c *Ctx) {
 	rng := c.Rng.Fork()
-	n := c.N(1500, 30000)
-	cases := make([]hdrCase, n)
-	seeds := make([]uint64, n)
-	for i := range cases {
-		cases[i] = genHdrCase(rng, i)
-		seeds[i] = rng.U64()
-	}
+	refs := caseRefs(c, rng, c.N(1500, 30000), "t2:header:rt", "t2:header:enc", "t2:header:dec")
+	n := len(refs)
 	ParallelFor(n, c.Work, func(i int) {
-		k := cases[i]
-		r := NewRand(seeds[i])
+		k := genHdrCase(NewRand(refs[i].GSeed), refs[i].I)
+		r := NewRand(refs[i].GSeed ^ 0x5bd1e995)
 		arg := bandsArg(k.Bands)
 		nblocks := 0
 		dist := []string{fmt.Sprintf("hdr.bands.%d", len(k.Bands)), fmt.Sprintf("hdr.termall.%v", k.TermAll)}
@@ -428,13 +423,13 @@ func suiteHeader(c *Ctx) {
 		}
 		key := fmt.Sprintf("hdr:%s:%s", Ints(k.Layers), arg)
 		if len(key) > 300 {
-			key = fmt.Sprintf("hdr:%d:%x", len(key), seeds[i])
+			key = fmt.Sprintf("hdr:%d:%x", len(key), refs[i].GSeed)
 		}
 		c.R.Case(key, nblocks >= 2 && k.L >= 2, dist...)
 		if i < 2 {
 			c.R.Sample(map[string]interface{}{"suite": "t2:header", "layers": k.Layers, "termAll": k.TermAll, "bands": arg})
 		}
-		in := map[string]interface{}{"layers": Ints(k.Layers), "bands": arg, "termAll": k.TermAll}
+		in := map[string]interface{}{"gseed": refs[i].GSeed, "i": refs[i].I, "layers": Ints(k.Layers), "bands": clipArg(arg), "termAll": k.TermAll}
 
 		// ---- encoder, layer by layer on the same Precinct objects
 		precincts := make([]*t2.Precinct, len(k.Bands))
@@ -477,6 +472,9 @@ func suiteHeader(c *Ctx) {
 		for bi := range k.Bands {
 			b := &k.Bands[bi]
 			dims[bi] = [2]int{b.W, b.H}
+			if len(b.Blocks) == 0 { // the decoder derives the grid from the blocks: none, no grid
+				dims[bi] = [2]int{0, 0}
+			}
 			if !(k.FullPos && len(b.Blocks) == b.W*b.H) {
 				for _, blk := range b.sortedBlocks() {
 					positions[bi] = append(positions[bi], [2]int{blk.CBX, blk.CBY})
@@ -526,7 +524,7 @@ func suiteHeader(c *Ctx) {
 		}
 		if len(steps) > 0 {
 			presets := strings.TrimSuffix(strings.Repeat("-|", len(dims)), "|")
-			din := map[string]interface{}{"bands": dBandsArg(dims, positions), "steps": strings.Join(steps, "#"), "enc": in}
+			din := map[string]interface{}{"bands": dBandsArg(dims, positions), "steps": clipArg(strings.Join(steps, "#")), "enc": in}
 			c.CorrEq("t2:header:dec", "t2:header:dec", c.M.Call("t2_hdr_dec", dBandsArg(dims, positions), presets, strings.Join(steps, "#")), joinOr(dparts, "#", "_"), din)
 		}
 
@@ -559,7 +557,7 @@ func suiteHeader(c *Ctx) {
 						bad = fmt.Sprintf("layer %d block %d: passes %d, encoder %d", li, j, di.NumPasses, ei.NumPasses)
 					case ei.DataLength != di.DataLength:
 						bad = fmt.Sprintf("layer %d block %d: length %d, encoder %d", li, j, di.DataLength, ei.DataLength)
-					case k.TermAll && ei.UseTERMALL && Ints(di.PassLengths) != Ints(ei.PassLengths):
+					case k.TermAll && ei.UseTERMALL && Ints(cumsum(di.PassLengths)) != Ints(ei.PassLengths):
 						bad = fmt.Sprintf("layer %d block %d: pass lengths %v, encoder %v", li, j, di.PassLengths, ei.PassLengths)
 					}
 					if bad != "" {
@@ -601,4 +599,24 @@ func checkZbp(k hdrCase, layers [][]t2.CodeBlockIncl) string {
 		}
 	}
 	return ""
+}
+
+// cumsum: per-pass lengths -> cumulative lengths (the encoder records CodeBlockIncl.PassLengths
+// cumulative within the layer, the parser per pass).
+func cumsum(l []int) []int {
+	out := make([]int, len(l))
+	t := 0
+	for i, v := range l {
+		t += v
+		out[i] = t
+	}
+	return out
+}
+
+// clipArg keeps failure inputs readable; the case is regenerated from (gseed, i) on replay.
+func clipArg(s string) string {
+	if len(s) > 1500 {
+		return s[:1500] + fmt.Sprintf("...(%d chars)", len(s))
+	}
+	return s
 }
